@@ -23,6 +23,7 @@ import random
 import numpy as np
 
 from simkit.baton import HarnessError
+from simkit import ccmemo
 from simkit.ccmemo import MemoSubprocess
 from simkit.common import REPO, scratch_root, tree_id
 from simkit.prng import Streams
@@ -70,7 +71,7 @@ def get_model(name, dtype):
         G["pid"] = os.getpid()
         G["models"] = {}
         kerneldll.SAS_DLL_PATH = os.path.join(G["root"], "c01cache-%d" % os.getpid())
-        kerneldll.subprocess = MemoSubprocess(G["memo"])
+        ccmemo.install(kerneldll, MemoSubprocess(G["memo"]))
     key = (name, dtype)
     if key not in G["models"]:
         G["models"][key] = core.load_model(name, dtype=dtype, platform="dll")
